@@ -828,7 +828,18 @@ func typesProp(c TypesCase, r *pbt.R) error {
 	case 0:
 		return runTypes(c, func(i int) string { return fmt.Sprintf("k%03d", i) }, r)
 	case 1:
-		return runTypes(c, func(i int) float64 { return float64(i)/4 - 3 }, r)
+		// key code 12 is zero: it is spelled -0.0 and +0.0 in turn (one key: they are equal)
+		flip := false
+		return runTypes(c, func(i int) float64 {
+			if i == 12 {
+				flip = !flip
+				if flip {
+					return math.Copysign(0, -1)
+				}
+				return 0
+			}
+			return float64(i)/4 - 3
+		}, r)
 	case 2:
 		return runTypes(c, func(i int) uint8 { return uint8(i % 85 * 3) }, r)
 	default:
@@ -886,7 +897,7 @@ func TestProp(t *testing.T) {
 		},
 		&pbt.Check[TypesCase]{
 			Name: "types",
-			Rule: "the same map semantics on other instantiations: btree.New[K, struct] with K = string (\"k007\"), float64 (c/4-3, negative, zero and fractional keys), uint8 and strings with a multi-byte prefix; random Put/Remove/Get sequences of up to 150 (600) operations over 3..80 keys against a Go map: Get, Size, IsEmpty after every operation, ascending Traverse and the height bound at the end. Non-trivial = >= 5 distinct keys.",
+			Rule: "the same map semantics on other instantiations: btree.New[K, struct] with K = string (\"k007\"), float64 (c/4-3, negative, fractional and zero keys, the zero spelled -0.0 and +0.0 in turn), uint8 and strings with a multi-byte prefix; random Put/Remove/Get sequences of up to 150 (600) operations over 3..80 keys against a Go map: Get, Size, IsEmpty after every operation, ascending Traverse and the height bound at the end. Non-trivial = >= 5 distinct keys.",
 			Gen: typesGen, Prop: typesProp, OutOfEnum: func(TypesCase, bool) bool { return true },
 			RapidQuick: 400, RapidThorough: 5000,
 		},
